@@ -6,6 +6,7 @@
 package sniffing
 
 import (
+	"encoding/binary"
 	"errors"
 	"io/fs"
 
@@ -27,7 +28,18 @@ const (
 
 const (
 	QuicVersion1 = 0x00000001
+	QuicVersion2 = 0x6b3343cf
 )
+
+// quicInitialPacketType returns the long packet type that marks an Initial
+// packet for the version in buf (RFC 9369 renumbers the types for QUIC v2).
+// buf must hold at least the first byte and the version field.
+func quicInitialPacketType(buf []byte) byte {
+	if binary.BigEndian.Uint32(buf[1:5]) == QuicVersion2 {
+		return 0b01
+	}
+	return QuicFlag_LongPacketType_Initial
+}
 
 // IsLikelyQuicInitialPacket checks if the buffer appears to be a QUIC Initial packet.
 // It validates the Long Header format and Initial packet type.
@@ -45,7 +57,7 @@ func IsLikelyQuicInitialPacket(buf []byte) bool {
 	if ((protectedFlag >> QuicFlag_HeaderForm) & 0b1) != QuicFlag_HeaderForm_LongHeader {
 		return false
 	}
-	if ((protectedFlag >> QuicFlag_LongPacketType) & 0b11) != QuicFlag_LongPacketType_Initial {
+	if ((protectedFlag >> QuicFlag_LongPacketType) & 0b11) != quicInitialPacketType(buf) {
 		return false
 	}
 
@@ -109,7 +121,7 @@ func sniffQuicBlock(s *Sniffer, cryptos []*quicutils.CryptoFrameOffset, buf []by
 	if ((protectedFlag >> QuicFlag_HeaderForm) & 0b11) != QuicFlag_HeaderForm_LongHeader {
 		return cryptos, nil, ErrNotApplicable
 	}
-	if ((protectedFlag >> QuicFlag_LongPacketType) & 0b11) != QuicFlag_LongPacketType_Initial {
+	if ((protectedFlag >> QuicFlag_LongPacketType) & 0b11) != quicInitialPacketType(buf) {
 		return cryptos, nil, ErrNotApplicable
 	}
 
